@@ -2238,6 +2238,7 @@ where
 
         // Shuffled retries (total iterations: attempts shuffled).
         for attempt in 1..=attempts.get() {
+            verif_tick!("construct/shuffled_attempt");
             let mut shuffled = vertices.to_vec();
 
             let mut attempt_seed =
@@ -2402,6 +2403,7 @@ where
 
         // Shuffled retries (total iterations: attempts shuffled).
         for attempt in 1..=attempts.get() {
+            verif_tick!("construct/shuffled_attempt");
             let mut shuffled = vertices.to_vec();
 
             let mut attempt_seed =
@@ -3970,7 +3972,15 @@ where
                 let base_seed = self.heuristic_rebuild_base_seed();
                 let seeds = config.resolve_seeds(base_seed);
                 let (candidate, stats, used_seeds) = self.rebuild_with_heuristic(seeds)?;
+                verif_failpoint!(
+                    "dt/repair_advanced/before_commit",
+                    DelaunayRepairError::HeuristicRebuildFailed {
+                        message: "verif: injected failure before committing the rebuilt candidate"
+                            .to_string(),
+                    }
+                );
                 *self = candidate;
+                verif_tick!("rebuild/committed");
                 Ok(DelaunayRepairOutcome {
                     stats,
                     heuristic: Some(used_seeds),
@@ -3995,6 +4005,7 @@ where
         let mut last_error: Option<String> = None;
 
         for attempt in 0..HEURISTIC_REBUILD_ATTEMPTS {
+            verif_tick!("rebuild/attempt");
             let seeds = if attempt == 0 {
                 base_seeds
             } else {
@@ -4729,10 +4740,22 @@ where
                         .delaunay_repair_insertion_count
                         .saturating_add(1);
                     let (v_key, used_heuristic) = self.maybe_repair_after_insertion(v_key, hint)?;
+                    verif_failpoint!(
+                        "dt/insert/after_repair",
+                        InsertionError::CavityFilling {
+                            message: "verif: injected failure after post-insertion repair".to_string(),
+                        }
+                    );
                     if used_heuristic {
                         self.insertion_state.last_inserted_cell = None;
                     }
                     self.maybe_check_after_insertion()?;
+                    verif_failpoint!(
+                        "dt/insert/after_check",
+                        InsertionError::DelaunayValidationFailed {
+                            message: "verif: injected failure after post-insertion check".to_string(),
+                        }
+                    );
                     Ok(v_key)
                 }
                 InsertionOutcome::Skipped { error } => Err(error),
@@ -4831,11 +4854,23 @@ where
                         .saturating_add(1);
                     let (vertex_key, used_heuristic) =
                         self.maybe_repair_after_insertion(vertex_key, hint)?;
+                    verif_failpoint!(
+                        "dt/insert/after_repair",
+                        InsertionError::CavityFilling {
+                            message: "verif: injected failure after post-insertion repair".to_string(),
+                        }
+                    );
                     if used_heuristic {
                         self.insertion_state.last_inserted_cell = None;
                         hint = None;
                     }
                     self.maybe_check_after_insertion()?;
+                    verif_failpoint!(
+                        "dt/insert/after_check",
+                        InsertionError::DelaunayValidationFailed {
+                            message: "verif: injected failure after post-insertion check".to_string(),
+                        }
+                    );
                     InsertionOutcome::Inserted { vertex_key, hint }
                 }
                 other @ InsertionOutcome::Skipped { .. } => other,
@@ -5140,6 +5175,7 @@ where
                 .map_err(TriangulationValidationError::from)?,
         };
 
+        verif_tick!("remove/removed");
         let topology = self.tri.topology_guarantee();
         if self.should_run_delaunay_repair_for(topology, 0) {
             let seed_ref = seed_cells.as_deref();
